@@ -14,6 +14,7 @@ structure Applies where
   pos : Pos
   field : String
   dflt : Option JVal      -- the default the describing property schema declares, if the member is absent
+  deriving Inhabited
 
 abbrev A := Pos → JVal → List Applies
 
